@@ -305,7 +305,7 @@ theorem ctxAfter_cons_inside (edges : Edges α) (dims : List Nat) (c0 : Slots) (
 theorem ctxAfter_cons_outside (edges : Edges α) (dims : List Nat) (c0 : Slots) (v : Value D) (vs : List (Value D))
     (h : (routedTo names av guess edges dims v).isSome = false) :
     ctxAfter names av guess edges dims c0 (v :: vs) = ctxAfter names av guess edges dims c0 vs := by
-  simp [ctxAfter, insideFlow, List.filter_cons, h]
+  simp [ctxAfter, insideFlow, h]
 
 /-- **Invariant of a successful flow of fills**, from any state with regular bins: edges and shape stay;
 every cell ends in the state that its own analysis reaches, from the cell's initial state, on the cell's
@@ -962,6 +962,7 @@ theorem mdSeqMapRun_length_lt_fuel : (mdSeqMapRun mk traces).out.length < firstC
     simp only [firstCellLen, hvs]
     omega
 
+omit hne in
 /-- **End of `_MdSeqMap` by `StopIteration`**: the number of values yielded is the number of results of
 some cell whose generator ended normally (with `mdSeqMapRun_length_le`: the minimum over the cells). -/
 theorem mdSeqMapRun_stop (h : (mdSeqMapRun mk traces).fin = none) :
@@ -995,5 +996,142 @@ theorem mdSeqMapRun_raise (e : Exc ε) (h : (mdSeqMapRun mk traces).fin = some e
     omega
 
 end rounds
+
+/-! ## `iter_bins_with_edges`: index tuples, cells, cell edges -/
+
+/-- the indices `iter_bins` yields for a regular array are `itertools.product(range(n0), range(n1), …)` -/
+theorem cells_fst : ∀ (dims : List Nat) (a : NArr β), NArr.HasShape dims a →
+    (NArr.cells a).map (·.1) = NArr.indexProd (dims.map List.range)
+  | [], .leaf v, _ => by simp [NArr.cells, NArr.indexProd]
+  | [], .node _, h => by simp [NArr.HasShape] at h
+  | _ :: _, .leaf _, h => by simp [NArr.HasShape] at h
+  | n :: ns, .node xs, h => by
+    simp only [NArr.HasShape] at h
+    have key : ∀ (l : List (NArr β)) (k : Nat), (∀ x ∈ l, NArr.HasShape ns x) →
+        (NArr.cellsFrom k l).map (·.1) =
+          (List.range' k l.length).flatMap (fun i => (NArr.indexProd (ns.map List.range)).map (i :: ·)) := by
+      intro l
+      induction l with
+      | nil => intro k _; simp [NArr.cellsFrom]
+      | cons x l ih =>
+        intro k hl
+        have hx := cells_fst ns x (hl x List.mem_cons_self)
+        have hr := ih (k + 1) (fun y hy => hl y (List.mem_cons_of_mem _ hy))
+        simp only [NArr.cellsFrom, List.map_append, List.map_map, List.length_cons, List.range'_succ,
+          List.flatMap_cons, hr]
+        congr 1
+        rw [← hx]
+        simp [Function.comp_def]
+    simp only [NArr.cells, List.map_cons, NArr.indexProd]
+    rw [key xs 0 h.2, h.1, List.range_eq_range']
+
+theorem getBin_of_cellAt : ∀ (a : NArr β) (p : List Nat) (v : β), cellAt a p = some v →
+    NArr.getBin a p = .ok (.leaf v)
+  | .leaf u, [], v, h => by simp [cellAt] at h; simp [NArr.getBin, h]
+  | .leaf u, _ :: _, v, h => by simp [cellAt] at h
+  | .node xs, [], v, h => by simp [cellAt] at h
+  | .node xs, i :: is, v, h => by
+    simp only [cellAt] at h
+    cases hx : xs[i]? with
+    | none => simp [hx] at h
+    | some x =>
+      simp only [hx] at h
+      simp only [NArr.getBin, hx]
+      exact getBin_of_cellAt x is v h
+
+theorem traceMapM_congr {E' : Type} (f g : β → Except E' ρ) : ∀ (l : List β), (∀ x ∈ l, f x = g x) →
+    traceMapM f l = traceMapM g l
+  | [], _ => rfl
+  | x :: xs, h => by
+    simp only [traceMapM, h x List.mem_cons_self,
+      traceMapM_congr f g xs (fun y hy => h y (List.mem_cons_of_mem _ hy))]
+
+theorem traceMapM_map {E' : Type} (f : γ → Except E' ρ) (g : β → γ) : ∀ (l : List β),
+    traceMapM f (l.map g) = traceMapM (fun x => f (g x)) l
+  | [] => rfl
+  | x :: xs => by simp only [List.map_cons, traceMapM, traceMapM_map f g xs]
+
+/-- without exceptions `traceMapM` yields one value per element, in order -/
+theorem traceMapM_ok {E' : Type} (f : β → Except E' ρ) (g : β → ρ) : ∀ (l : List β),
+    (∀ x ∈ l, f x = .ok (g x)) → traceMapM f l = ⟨l.map g, none⟩
+  | [], _ => rfl
+  | x :: xs, h => by
+    simp only [traceMapM, h x List.mem_cons_self,
+      traceMapM_ok f g xs (fun y hy => h y (List.mem_cons_of_mem _ hy)), Trace.cons, List.map_cons]
+
+/-- `ce` are the edges of the cell with index path `p`: `(axes[k][p[k]], axes[k][p[k] + 1])` for every axis -/
+def IsCellEdges : List (List α) → List Nat → List (α × α) → Prop
+  | [], [], [] => True
+  | arr :: axes, i :: p, lohi :: ce => arr[i]? = some lohi.1 ∧ arr[i + 1]? = some lohi.2 ∧ IsCellEdges axes p ce
+  | _, _, _ => False
+
+theorem cellEdges_spec (ε : Type) : ∀ (axes : List (List α)) (p : List Nat), PathIn p (axes.map (fun a => a.length - 1)) →
+    ∃ ce, (cellEdges axes p : Except (Exc ε) (List (α × α))) = .ok ce ∧ IsCellEdges axes p ce
+  | [], [], _ => ⟨[], rfl, trivial⟩
+  | [], _ :: _, h => by simp [PathIn] at h
+  | _ :: _, [], h => by simp [PathIn] at h
+  | arr :: axes, i :: p, h => by
+    simp only [List.map_cons, PathIn] at h
+    obtain ⟨ce, hce, hic⟩ := cellEdges_spec ε axes p h.2
+    have h1 : i < arr.length := by omega
+    have h2 : i + 1 < arr.length := by omega
+    refine ⟨(arr[i], arr[i + 1]) :: ce, ?_, ?_⟩
+    · simp [cellEdges, List.getElem?_eq_getElem h1, List.getElem?_eq_getElem h2, hce]
+    · exact ⟨List.getElem?_eq_getElem h1, List.getElem?_eq_getElem h2, hic⟩
+
+/-! ## every cell once, in lexicographic order -/
+
+/-- strict lexicographic order of index tuples of equal length -/
+def LexLt : List Nat → List Nat → Prop
+  | i :: is, j :: js => i < j ∨ (i = j ∧ LexLt is js)
+  | _, _ => False
+
+theorem lexLt_irrefl : ∀ (p : List Nat), ¬ LexLt p p
+  | [] => by simp [LexLt]
+  | i :: is => by
+    simp only [LexLt, Nat.lt_irrefl, true_and, false_or]
+    exact lexLt_irrefl is
+
+/-- `itertools.product` of strictly increasing ranges is strictly increasing lexicographically -/
+theorem indexProd_sorted : ∀ (rs : List (List Nat)), (∀ r ∈ rs, r.Pairwise (· < ·)) →
+    (NArr.indexProd rs).Pairwise LexLt
+  | [], _ => by simp [NArr.indexProd]
+  | r :: rs, h => by
+    have ih := indexProd_sorted rs (fun r' hr' => h r' (List.mem_cons_of_mem _ hr'))
+    have hr := h r List.mem_cons_self
+    simp only [NArr.indexProd]
+    induction r with
+    | nil => simp
+    | cons i r' ihr =>
+      rw [List.pairwise_cons] at hr
+      simp only [List.flatMap_cons]
+      rw [List.pairwise_append]
+      refine ⟨?_, ihr (fun r'' hr'' => by
+          rcases List.mem_cons.1 hr'' with rfl | hm
+          · exact hr.2
+          · exact h r'' (List.mem_cons_of_mem _ hm)) hr.2, ?_⟩
+      · rw [List.pairwise_map]
+        exact ih.imp (fun hab => Or.inr ⟨rfl, hab⟩)
+      · intro a ha b hb
+        obtain ⟨x, _, rfl⟩ := List.mem_map.1 ha
+        obtain ⟨j, hj, hb'⟩ := List.mem_flatMap.1 hb
+        obtain ⟨y, _, rfl⟩ := List.mem_map.1 hb'
+        exact Or.inl (hr.1 j hj)
+
+/-- **`iter_bins` of a regular array visits every cell exactly once, in lexicographic index order** -/
+theorem cells_sorted {dims : List Nat} {a : NArr β} (hs : NArr.HasShape dims a) :
+    ((NArr.cells a).map (·.1)).Pairwise LexLt ∧ ((NArr.cells a).map (·.1)).Nodup := by
+  have h1 : ((NArr.cells a).map (·.1)).Pairwise LexLt := by
+    rw [cells_fst dims a hs]
+    apply indexProd_sorted
+    intro r hr
+    obtain ⟨n, _, rfl⟩ := List.mem_map.1 hr
+    exact List.pairwise_lt_range
+  refine ⟨h1, ?_⟩
+  rw [List.nodup_iff_pairwise_ne]
+  refine h1.imp ?_
+  intro p q hpq heq
+  subst heq
+  exact lexLt_irrefl p hpq
 
 end Lena.C11
